@@ -621,6 +621,36 @@ Lemma function_request_is_point ss os x :
   length ss = length x -> length os = length x -> positive ss -> veq (from_opt ss os (to_opt ss os x)) x.
 Proof. intros H1 H2 Hp. apply roundtrip_from_to; auto. apply positive_nonzero; exact Hp. Qed.
 
+Lemma meq_sym a b : meq a b -> meq b a.
+Proof. intros H. induction H; constructor; [apply veq_sym|]; assumption. Qed.
+Lemma meq_trans a b c : meq a b -> meq b c -> meq a c.
+Proof.
+  intros H; revert c. induction H as [|x y a b Hxy _ IH]; intros c Hc; inversion Hc; subst; constructor;
+    [eapply veq_trans; eassumption | apply IH; assumption].
+Qed.
+
+(* a function request for a batch of points (2-D variables): the evaluator receives every user point R times, in
+   order, whatever the scaler *)
+Lemma batch_requests_user R ss os xs :
+  Forall (fun x => length ss = length x /\ length os = length x) xs -> positive ss ->
+  meq (batch_requests R ss os (map (to_opt ss os) xs)) (batch_rows R xs).
+Proof.
+  intros Hx Hp. unfold batch_requests, batch_rows.
+  induction Hx as [|x xs (H1 & H2) _ IH]; cbn [map concat]; [constructor|].
+  rewrite map_app. apply meq_app; [|exact IH]. rewrite map_repeat'. apply Forall2_repeat.
+  apply function_request_is_point; assumption.
+Qed.
+
+Lemma batch_requests_invariant R n ss1 os1 ss2 os2 xs :
+  Forall (fun x => length x = n) xs ->
+  length ss1 = n -> length os1 = n -> positive ss1 -> length ss2 = n -> length os2 = n -> positive ss2 ->
+  meq (batch_requests R ss1 os1 (map (to_opt ss1 os1) xs)) (batch_requests R ss2 os2 (map (to_opt ss2 os2) xs)).
+Proof.
+  intros Hx A1 A2 Hp1 B1 B2 Hp2.
+  eapply meq_trans; [apply batch_requests_user | apply meq_sym; apply batch_requests_user]; try assumption;
+    (eapply Forall_impl; [|exact Hx]); cbn; intros x Hl; split; congruence.
+Qed.
+
 (* ================================================================================================ *)
 (* results: per-realization values, function values                                                  *)
 (* ================================================================================================ *)
